@@ -120,7 +120,7 @@ class Repo:
                         with open(path, "r", encoding="utf-8") as fh:
                             src = fh.read()
                     from .specialise import specialise
-                    tree0, specialised = specialise(ast.parse(src, filename=path), rel, self._used_kws, self._max_pos)
+                    tree0, specialised = specialise(ast.parse(src, filename=path), rel, self._used_kws, self._max_pos, self._spec_ok)
                     tree = normalise(tree0, externs.get(rel))
                     tree, inlined = inline_new_helpers(tree, rel)
                     if inlined:
@@ -222,11 +222,20 @@ class Repo:
         # keywords / positional counts used by calls anywhere in the package (sa/specialise.py: an option no caller passes is analysed at its default)
         self._used_kws = set()
         self._max_pos = {}
-        for rel_, (kws_, npos_) in usage.items():
+        kw_values = {}
+        for rel_, (kws_, npos_, vals_) in usage.items():
             self._used_kws |= kws_
             for k_, v_ in npos_.items():
                 self._max_pos[k_] = max(self._max_pos.get(k_, 0), v_)
-        self._spec_digest = {rel_: hashlib.sha1(repr(sorted((nm_, p_, (nm_, p_) in self._used_kws or (nm_, "**") in self._used_kws, self._max_pos.get(nm_, 0))
+            for k_, v_ in vals_.items():
+                kw_values.setdefault(k_, []).extend(v_)
+        from .specialise import options_safe_to_fold
+        all_new = {}
+        for rel_, ps_ in newp.items():
+            for k_, d_ in ps_.items():
+                all_new[k_] = d_ if (k_ not in all_new or all_new[k_] == d_) else None
+        self._spec_ok = options_safe_to_fold(all_new, self._used_kws, kw_values)
+        self._spec_digest = {rel_: hashlib.sha1(repr(sorted((nm_, p_, (nm_, p_) in self._spec_ok, self._max_pos.get(nm_, 0))
                                                                 for nm_, p_ in ps_)).encode()).hexdigest() for rel_, ps_ in newp.items() if ps_}
         return externs, digest
 
@@ -248,7 +257,7 @@ class Repo:
                 continue
             try:
                 from .specialise import specialise as _spec
-                tree = normalise(_spec(ast.parse(mi.src, filename=mi.path), rel, self._used_kws, self._max_pos)[0], self._externs.get(rel))
+                tree = normalise(_spec(ast.parse(mi.src, filename=mi.path), rel, self._used_kws, self._max_pos, self._spec_ok)[0], self._externs.get(rel))
                 tree, inlined = _inl(tree, rel, foreign)
                 if inlined:
                     tree = normalise(tree, self._externs.get(rel))
